@@ -79,6 +79,18 @@ CLAIMS = {
         'correspondence; harness with hook kit.VerifHasIndex. Partial for the schema/enum entry points (scanners not yet modelled).',
    technique='Coq proofs (line/column arithmetic, rendering, regenerated format table) + correspondence + exploration of rejections per entry point',
    ref='section 9, C16'),
+ 'C10': dict(
+   category='proof',
+   text='Coq theorem over the pool model (sync.Pool may hand out any pooled buffer): if every pool site returns a copy, every value '
+        'returned so far reads the same after ANY continuation of the history; the site table is regenerated from /repo on every run '
+        '(AST: every function taking a buffer from a pool, each return classified as storage or copy, deferred Put; loader fields vs '
+        'the fields reset() assigns) and the theorems "all sites copy" and "reset is total" are re-proved over it. Histories over 1-4 '
+        'schema objects (valid, invalid, failing half-way) run on the real library with every returned value snapshotted and every '
+        'result compared with a fresh-process evaluation.',
+   note='Trusted: Coq kernel incl. vm_compute; translator gotables PoolSites (syntactic alias classification); the semantics given to '
+        'sync.Pool; harness. State outside pools and the loader (none known; package-level variables are C11/C09) is covered by the histories only.',
+   technique='Coq proof over a pool/heap model + source-regenerated site inventory + history exploration against fresh-process results',
+   ref='section 9, C10'),
 }
 
 def main():
